@@ -108,8 +108,22 @@ def T(s):
     return [ord(ch) for ch in s]
 
 
+class _StrSub(str):
+    """a plain subclass of str: every documented `str` parameter must treat it exactly like the str it is"""
+    __slots__ = ()
+
+
+_SUBCLASS_EVERY = int(os.environ.get("VERIF_STR_SUBCLASS_EVERY", "6") or 0)
+
+
 def U(cps) -> str:
-    return "".join(chr(c) for c in cps)
+    """code points -> the text handed to the library.  One text in six (chosen by a checksum of the text, so a replay makes
+    the same choice) is handed over as an instance of a str SUBCLASS: the representation of an argument -- exact type, storage
+    width -- must not matter, and the fast paths that test `type(x) is str` are exactly where it could."""
+    s = "".join(chr(c) for c in cps)
+    if _SUBCLASS_EVERY and s and (sum(cps) + len(cps)) % _SUBCLASS_EVERY == 0:
+        return _StrSub(s)
+    return s
 
 
 def opt(x, f=lambda v: v):
